@@ -233,6 +233,18 @@ func runC13(o *out, thorough bool, r *rng, _ []string) map[string]interface{} {
 		o.run(1301, fs, true)
 		o.count("thousands-in-flight-histories")
 	}
+	// every number of the library's source that could be a limit on how many transactions there are
+	for _, n := range litIntsIn(8, 6000, 10) {
+		for _, k := range []int{n - 1, n, n + 1} {
+			var fs []string
+			for id := 1; id <= k; id++ {
+				fs = append(fs, fNums(1, id, 5+id%3))
+			}
+			fs = append(fs, fNums(1, k+1, 50), fNums(4, 9), fNums(4, 9), fNums(6))
+			o.run(1301, fs, true)
+			o.count("source-literal-counts")
+		}
+	}
 	// many transactions expiring in ONE Collect (on both sides of the 100 the library pre-allocates for)
 	for _, k := range []int{99, 100, 101, 150, 257, 300} {
 		var fs []string
